@@ -2,6 +2,7 @@ package main
 
 import (
 	"fmt"
+	"go/types"
 
 	"golang.org/x/tools/go/ssa"
 )
@@ -44,6 +45,22 @@ func (x *vc) externalCallClauses(fr *frame, st *state, callee *ssa.Function, arg
 		x.oblige(st, "callarg", detail, x.evalBool(env, ac.cl.expr), pos, "argument clause for this library call: "+ac.cl.text, false)
 		ac.seen = true
 	}
+}
+
+// hashableKey: a map with an interface-typed key panics at run time ("hash of unhashable type") when the key's dynamic
+// type is a slice, a map, a function or a struct/array containing one. The obligation accepts the dynamic kinds that
+// are always hashable (booleans, numbers, strings, pointers, channels) and the nil interface; struct, array and
+// interface kinds would need their field types and are not accepted.
+func (x *vc) hashableKey(st *state, mt *types.Map, k Val, pos string) {
+	if _, isIface := mt.Key().Underlying().(*types.Interface); !isIface || k.T == "" {
+		return
+	}
+	kd := app("kind_of_type", app("itag", k.T)) // declared in the reflect prelude, included whenever the name occurs
+
+	// kinds Func (19), Map (21) and Slice (23) are never hashable; struct, array and interface kinds are hashable when
+	// their components are (assumed: see the note on reflect.Type.Comparable)
+	ok := or(eq(app("itag", k.T), "0"), and(app("<=", "1", kd), app("<=", kd, "26"), not(eq(kd, "19")), not(eq(kd, "21")), not(eq(kd, "23"))))
+	x.check(st, "hashable", "", ok, pos, "map key of interface type: the dynamic type must be hashable (not a slice, map, function, or a struct/array holding one)")
 }
 
 func (x *vc) recordExternalResult(fr *frame, callee *ssa.Function, res Val, guard string) {
